@@ -536,6 +536,23 @@ func c15(c *Ctx) {
 			r.Check("constructPost:fresh-reader-per-attempt", ok, cl.Pos(), "the request body is bytes.NewReader(body) created inside the per-attempt closure (a shared reader is empty on a retry): "+pathOf(body))
 		}
 		retryWindowRule(r, post)
+		// the retry loop is abandoned only through the backoff window or the caller's own context: post
+		// creates no deadline / cancellation of its own (such an exit leaves the loop without counting the body as dropped)
+		okCtx := true
+		why := ""
+		for _, cl := range callsIn(post) {
+			if strings.HasPrefix(calleeName(cl), "context.With") {
+				okCtx = false
+				why = "post derives a context with " + shortCallee(cl)
+			}
+			if cl.Common().IsInvoke() && cl.Common().Method.Name() == "Done" && strings.Contains(cl.Common().Value.Type().String(), "context.Context") {
+				if _, isP := cl.Common().Value.(*ssa.Parameter); !isP {
+					okCtx = false
+					why = "the cancellation watched by the retry loop is not the caller's context: " + pathOf(cl.Common().Value)
+				}
+			}
+		}
+		r.Check("post:only-the-callers-context", okCtx, post.Pos(), "the retry loop watches only the caller's context"+map[bool]string{true: "", false: ": " + why}[okCtx])
 		attemptIdempotent(r, req)
 		attemptResultNotRewritten(r, req)
 		respAfterErrCheck(r, req)
@@ -723,6 +740,66 @@ func c15(c *Ctx) {
 			}
 			r.Check("constructPost:header-from-split-key", ok, cp.Pos(), "dynamic headers are parsed from this request's dynHeaderTags")
 		}
+	})
+
+	c.Rule("C15.R8", "matching header: a dynamic-header tag 'name:value' is split at its first ':' only, so the request of a split carries the tag's whole value", 2, func(r *Rule) {
+		cp := w.Func("pkg/statsd", "(*HttpForwarderHandlerV2).constructPost")
+		if cp == nil {
+			r.Unresolved("(*HttpForwarderHandlerV2).constructPost")
+			return
+		}
+		c.SawFunc(FuncName(cp))
+		n := 0
+		for _, g := range WithAnon(cp) {
+			for _, cl := range callsIn(g) {
+				name := calleeName(cl)
+				if name != "strings.Split" && name != "strings.SplitN" && name != "strings.Cut" {
+					continue
+				}
+				sep, ok := constString(cl.Common().Args[1])
+				if !ok || sep != ":" {
+					continue
+				}
+				n++
+				switch name {
+				case "strings.Cut":
+					r.Pass("header:split-at-first-colon", cl.Pos(), "strings.Cut(tag, \":\")")
+				case "strings.SplitN":
+					k, isC := constInt(cl.Common().Args[2])
+					r.Check("header:split-at-first-colon", isC && k == 2, cl.Pos(), "strings.SplitN(tag, \":\", 2)")
+				default:
+					r.Fail("header:split-at-first-colon", cl.Pos(), "strings.Split(tag, \":\") cuts a value that contains ':' into pieces: the header is lost or truncated")
+				}
+			}
+			// the header value set on the request is the part after the separator
+			for _, cl := range callsTo(g, "(net/http.Header).Set") {
+				if s, isS := constString(cl.Common().Args[1]); isS && strings.Contains(strings.ToLower(s), "encoding") {
+					continue
+				}
+				if _, isS := constString(cl.Common().Args[1]); isS {
+					continue // fixed headers
+				}
+				v := cl.Common().Args[2]
+				okV := false
+				switch x := v.(type) {
+				case *ssa.Extract:
+					if cc, ok := x.Tuple.(*ssa.Call); ok && isCall(cc, "strings.Cut") && x.Index == 1 {
+						okV = true
+					}
+					if _, ok := x.Tuple.(*ssa.Next); ok {
+						okV = true // ranging over a prepared header map: its construction is covered by the split check
+					}
+				case *ssa.UnOp:
+					if ia, ok := x.X.(*ssa.IndexAddr); ok {
+						if k, isC := constInt(ia.Index); isC && k == 1 {
+							okV = true
+						}
+					}
+				}
+				r.Check("header:value-is-remainder", okV, cl.Pos(), "dynamic header value is the part after the first ':' : "+pathOf(v))
+			}
+		}
+		r.Check("header:split-sites", n >= 1, cp.Pos(), fmt.Sprintf("%d ':' split sites in constructPost", n))
 	})
 
 	c.Rule("C15.R7", "request bodies do not alias pooled buffers (C14.R6)", 1, func(r *Rule) {
